@@ -148,6 +148,9 @@ def run(ctx):
             ctx.fail("response", c, "ComputeQSPResponse raised %s: %s" % (r["exc"], r.get("msg", "")))
             continue
         pd = r["ok"]["pdat"]
+        if r["ok"].get("held_changed"):
+            ctx.fail("response", c, "this call modified the 'pdat' array returned by an earlier call in the same process (results share storage)")
+            continue
         if len(pd) != len(c["adat"]):
             ctx.fail("response", c, "pdat has %d entries for %d inputs" % (len(pd), len(c["adat"])))
             continue
